@@ -86,6 +86,7 @@ type FnExec struct {
 	top      *frame
 	pkg      *types.Package
 	blocksReached int
+	phiEdges map[*ssa.BasicBlock][]phiEdge
 }
 
 func (fe *FnExec) fresh(hint, sort string) Term {
@@ -993,19 +994,18 @@ type phiEdge struct {
 	st   *State
 }
 
-var phiEdges = map[*ssa.BasicBlock][]phiEdge{}
 
 func (fe *FnExec) notePhiEdge(b, p *ssa.BasicBlock, e *State) {
 	if len(b.Instrs) > 0 {
 		if _, ok := b.Instrs[0].(*ssa.Phi); ok {
-			phiEdges[b] = append(phiEdges[b], phiEdge{p, e})
+			fe.phiEdges[b] = append(fe.phiEdges[b], phiEdge{p, e})
 		}
 	}
 }
 
 func (fe *FnExec) resolvePhis(b *ssa.BasicBlock, st *State) {
-	edges := phiEdges[b]
-	delete(phiEdges, b)
+	edges := fe.phiEdges[b]
+	delete(fe.phiEdges, b)
 	for _, in := range b.Instrs {
 		phi, ok := in.(*ssa.Phi)
 		if !ok {
